@@ -14,6 +14,9 @@ import (
 type pairRun struct {
 	a, b   *sessRun
 	sa, sb *sessSpec
+	// what actually travelled A->B and B->A (after in-transit edits)
+	wireAB, wireBA []byte
+	stalled        bool // both ends blocked waiting for bytes (only possible when bytes were lost in transit)
 }
 
 func runOne(s *sessSpec, conn *memConn, r *sessRun, done chan struct{}) {
@@ -110,6 +113,12 @@ func runPairOpts(sa, sb *sessSpec, segSeed int64, limA, limB int, editsAB, edits
 	pr.a.elapsed, pr.b.elapsed = time.Since(start), time.Since(start)
 	pr.a.wire, pr.b.wire = ca.Sent(), cb.Sent()
 	pr.a.closed, pr.b.closed = ca.ClosedByUser(), cb.ClosedByUser()
+	pr.wireAB, pr.wireBA = ca.Altered(), cb.Altered()
+	pr.stalled = ca.Deadlocked()
+	if pr.stalled && editsAB == nil && editsBA == nil {
+		// nothing was altered: a stall on a reliable stream is a hang of the protocol engine
+		pr.a.hung, pr.b.hung = true, true
+	}
 	pr.a.canon, pr.b.canon = canonOf(pr.a), canonOf(pr.b)
 	return pr
 }
